@@ -441,4 +441,21 @@ theorem convert_spec (m : Mode) (k : Nat) (hk : k < 3) (dt : Spec.Date) (h : dt.
     | (obtain ⟨oy, doy, he, hv, hn⟩ := ordFromWeek_spec m y w d h
        exact ⟨.ord oy doy, by simp [convert, he], hv, rfl, hn⟩)
 
+theorem rep_lt_three (dt : Spec.Date) : dt.rep < 3 := by cases dt <;> simp [Spec.Date.rep]
+
+/-- Converting back to the original representation returns the original date. -/
+theorem convert_back (m : Mode) (k : Nat) (hk : k < 3) (dt r : Spec.Date) (h : dt.Valid m)
+    (he : convert m k dt = some r) : convert m dt.rep r = some dt ∧ r.Valid m ∧ r.rep = k ∧
+      r.dayNum m = dt.dayNum m := by
+  obtain ⟨r0, he0, hv, hr, hn⟩ := convert_spec m k hk dt h
+  rw [he] at he0
+  have : r = r0 := by simpa using he0
+  subst this
+  obtain ⟨r', he', hv', hr', hn'⟩ := convert_spec m dt.rep (rep_lt_three dt) r hv
+  refine ⟨?_, hv, hr, hn⟩
+  rw [he', date_unique m r' dt hv' h hr' (by rw [hn', hn])]
+
+theorem convert_self (m : Mode) (dt : Spec.Date) : convert m dt.rep dt = some dt := by
+  cases dt <;> rfl
+
 end IsoDT.Lemmas
